@@ -59,8 +59,26 @@ order (`same_up_to_order_transports`); `process_end_to_end_via_surviving` (the s
 `process_end_to_end`) and `values_are_derived_via_surviving` are the first-group main theorems
 obtained as corollaries of the second group.
 
+The error clause per defect (last section, `errors_are_exactly_the_defects` and corollaries):
+`errors_iff` / `identity_errors` only say "the error list is non-empty exactly when a defect
+exists".  Proved in addition, for every map order, over the surviving statements (and, under (c),
+over `graph r` and all identity statements: `…_one_per_vertex`): EVERY vertex derived from itself
+gets a `cycle` error at its own identity statement (`cycle_reported_per_member`; hence one per
+cyclic component, a cycle derived from another cycle included: `cycle_reported_per_component`);
+every dangling base gets an identity-base-local / identity-base-remote / identity-prefix error at
+the module or submodule statement of the text that writes it (`undefined_base_reported`); no other
+error carries these classes (`cycle_errors_sound`, `base_errors_sound`); the runner's executable
+per-defect verdict `Spec.Identity.judgeReports` answers `holds` on the model's own errors and on
+everything `Process` returns (`judgeReports_holds_of_model`, `judgeReports_holds_of_run`,
+`judgeReports_holds_of_model_one_per_vertex`), so a `violates` of that verdict on Go's errors is
+always a Go-vs-model difference; `error_clause_end_to_end` is all of it from identifier-named
+loaded texts without further hypotheses.  Two undefined bases written in one text get two errors
+that differ in nothing the comparison sees (position = the module statement, class), so the
+statements are per writing text, as the verdict is.
+
 What is not proved here: nothing about what the link stage reports under two map orders beyond its
-presence.  The runner's executable verdict (driver `spec.ident`) now judges schemas with several
+presence; ownerless submodules (`G.orphans`) are covered by `errors_iff` only (their
+no-such-module report at the belongs-to statement is not stated per orphan).  The runner's executable verdict (driver `spec.ident`) now judges schemas with several
 statements per vertex too, over `survivorGraph` and the items of the surviving statements; several
 such statements within ONE (sub)module text give dump items the driver cannot tell apart, and of
 such a group it asks that one item carries the right list (model and Go are compared item by item
@@ -1155,6 +1173,61 @@ theorem judgeReports_holds_of_run (r : Registry) (hw : LoadedOK r) (G : Graph) (
       cases he
     · exact List.mem_append_left _ he
 
+/-- The error clause end to end, without hypotheses on the schema: from identifier-named texts that
+`Modules.add` accepted, for every map order, the graph `G` of the surviving statements and the
+registrations `R` exist, and either an include/import is reported missing, or `Process` finishes
+with the errors `res.errs` of `resolveIdentities` such that
+(1) every surviving vertex derived from itself has a `cycle` error at its own identity statement,
+(2) every dangling base of `G` is a base statement of a surviving statement and has an
+    undefined-base error at the (sub)module statement of the text that writes it,
+(3) every `cycle` error sits at the surviving statement of a vertex derived from itself,
+(4) every undefined-base error sits at the text of a base statement that is a dangling base of `G`,
+(5) the runner's per-defect verdict on everything `Process` returns is `holds`. -/
+theorem error_clause_end_to_end (files : List SrcFile) (r : Registry) (hload : loadAll files = .ok r)
+    (hid : IdentifierNamed files) (o : Oracle) (ho : o.Valid) :
+    ∃ G R, survivorGraph r = some G ∧ registrations r = some R ∧
+      ((∃ errs, run o r = .linkFailed errs ∧ errs ≠ []) ∨
+       (∃ res, run o r = .done res (identityrefLeaves r res.dict) ∧
+        (∀ x ∈ survivors R, Derives G x.1 x.1 →
+          ∃ e ∈ res.errs, e.cls = cycleClass ∧ locatedAt e x.2.2 = true) ∧
+        (∀ va ∈ G.dangling, ∃ x ∈ survivors R, x.1 = va.1 ∧ (∃ b ∈ x.2.2.all "base", b.arg = va.2) ∧
+          ∃ e ∈ res.errs, e.cls ∈ undefinedBaseClasses ∧ locatedAt e x.2.1.stmt = true) ∧
+        (∀ e ∈ res.errs, e.cls = cycleClass →
+          ∃ x ∈ survivors R, e = Err.at_ x.2.2 cycleClass ∧ Derives G x.1 x.1) ∧
+        (∀ e ∈ res.errs, e.cls ∈ undefinedBaseClasses →
+          ∃ x ∈ survivors R, ∃ b ∈ x.2.2.all "base", e = Err.at_ x.2.1.stmt e.cls ∧
+            (x.1, b.arg) ∈ G.dangling) ∧
+        judgeReports r G (survivors R) (processErrs r res (identityrefLeaves r res.dict)) = Verdict.holds)) := by
+  obtain ⟨G, hG⟩ := survivorGraph_some r
+  obtain ⟨R, hR⟩ := registrations_some r
+  have hw : LoadedOK r := loaded_ok files r hload hid
+  refine ⟨G, R, hG, hR, ?_⟩
+  rcases judgeReports_holds_of_run r hw G hG R hR o ho with h | ⟨res, hrun, _, hj⟩
+  · exact Or.inl h
+  · right
+    obtain ⟨lk, lerrs, hlink, hlinked⟩ := linkAll_spec o ho r
+    have hrun' := hrun
+    unfold run at hrun'
+    simp only [hlink] at hrun'
+    cases lerrs with
+    | cons e es => simp at hrun'
+    | nil =>
+      have hl : Linked r lk := hlinked rfl
+      obtain ⟨res1, hres1, h1⟩ := cycle_reported_per_member r lk hl hw G hG R hR o ho
+      obtain ⟨res2, hres2, h2⟩ := undefined_base_reported r lk hl hw G hG R hR o ho
+      obtain ⟨res3, hres3, h3⟩ := cycle_errors_sound r lk hl hw G hG R hR o ho
+      obtain ⟨res4, hres4, h4⟩ := base_errors_sound r lk hl hw G hG R hR o ho
+      rw [hres1] at hres2 hres3 hres4
+      cases hres2
+      cases hres3
+      cases hres4
+      have hr : res = res1 := by
+        simp only [hres1, List.isEmpty_nil, Bool.not_true, Bool.false_eq_true, if_false] at hrun'
+        cases hrun'
+        rfl
+      subst hr
+      exact ⟨res, hrun, h1, h2, h3, h4, hj⟩
+
 /-! The same for the first group (one identity statement per vertex, `graph r`): the statements are
 all identity statements of the parts of the schema — the list the driver hands to `judgeReports`
 when no vertex has two statements. -/
@@ -1289,6 +1362,13 @@ example : ModuleKeysDistinct exR5 := by show (exR5.modules.map (·.1)).Nodup; de
 example : ((Goyang.Spec.Identity.parts exR5).map fun ps => (identityStatements exR5 ps).map fun x => (x.1, x.2.1.name, x.2.2.line)) =
     some [(("up", "P1"), "up", 3), (("up", "P2"), "up", 4), (("zdown", "Q1"), "zdown", 4),
       (("zdown", "Q2"), "zdown", 5), (("zdown", "Z"), "zdown", 6)] := by decide
+/-- `error_clause_end_to_end` applies to the example (`example5_loaded`, `example5_identifierNamed`,
+`exIdOracle_valid`), and the graph it speaks about is `exG5`. -/
+example : ∃ G R, survivorGraph exR5 = some G ∧ registrations exR5 = some R := by
+  obtain ⟨G, R, h1, h2, _⟩ :=
+    error_clause_end_to_end exFiles5 exR5 example5_loaded example5_identifierNamed exIdOracle exIdOracle_valid
+  exact ⟨G, R, h1, h2⟩
+example : (match run exIdOracle exR5 with | .done _ _ => true | _ => false) = true := by decide
 /-- The surviving statements: (vertex, declaring module, line of the identity statement). -/
 def exSurv5 : List (Vertex × Mod × Stmt) :=
   match registrations exR5 with
